@@ -210,6 +210,24 @@ macro_rules! float_case_impl {
                         if let Some(r) = query(c, "symbol_table", class_perfect, &input, "C05", || Ok(iter_rows::<_, usize, $P>(m))) {
                             same(c, "symbol_table vs direct queries (contiguous categorical)", &input, &rows, &r);
                         }
+                        // the `_perfect` constructors of the other categorical representations must build the SAME model
+                        let plabels: Vec<u32> = (0..n as u32).map(|i| (i * 7919 + 13) % 1000 + (if i % 2 == 0 { 100000 } else { 0 })).collect();
+                        let relabeled: Vec<Row<u32>> = rows.iter().map(|(s, a, b)| (plabels[*s], *a, *b)).collect();
+                        let qs = quantiles(&rows, $P);
+                        let pe = construct(c, "NonContiguousCategoricalEncoderModel::from_symbols_and_floating_point_probabilities_perfect", &input,
+                            || NonContiguousCategoricalEncoderModel::<u32, $Pr, $P>::from_symbols_and_floating_point_probabilities_perfect(plabels.iter().copied(), t));
+                        match &pe {
+                            Some(e) => { if let Some(r) = query(c, "NonContiguousCategoricalEncoderModel::from_symbols_and_floating_point_probabilities_perfect", class_perfect, &input, tags_perfect, || enc_rows::<_, u32, $P>(e, &plabels)) {
+                                same(c, "perfect non-contiguous encoder vs perfect contiguous model", &input, &relabeled, &r); } }
+                            None => c.out.push(Finding { props: "C05", identity: "perfect constructors (contiguous vs non-contiguous encoder) | one accepts what the other rejects".into(), detail: format!("{:?}", input) }),
+                        }
+                        let pd = construct(c, "NonContiguousCategoricalDecoderModel::from_symbols_and_floating_point_probabilities_perfect", &input,
+                            || NonContiguousCategoricalDecoderModel::<u32, $Pr, _, $P>::from_symbols_and_floating_point_probabilities_perfect(plabels.iter().copied(), t));
+                        match &pd {
+                            Some(d) => { if query(c, "NonContiguousCategoricalDecoderModel::from_symbols_and_floating_point_probabilities_perfect", class_perfect, &input, tags_perfect, || check_dec::<_, u32, $P>(d, &relabeled, &qs)).is_some() { c.sink.count("representation_comparisons", 1); } }
+                            None => c.out.push(Finding { props: "C05", identity: "perfect constructors (contiguous vs non-contiguous decoder) | one accepts what the other rejects".into(), detail: format!("{:?}", input) }),
+                        }
+                        float_case_impl!(@perfectlookup $lookup, c, rows, relabeled, qs, plabels, input, class_perfect, tags_perfect, $Pr, $P, t);
                     }
                 }
             }
@@ -263,6 +281,31 @@ macro_rules! float_case_impl {
             }
         }
     };
+    (@perfectlookup true, $c:ident, $rows:ident, $relabeled:ident, $qs:ident, $plabels:ident, $input:ident, $class:ident, $tags:ident, $Pr:ty, $P:literal, $t:ident) => {
+        match construct($c, "ContiguousLookupDecoderModel::from_floating_point_probabilities_perfect", &$input,
+            || ContiguousLookupDecoderModel::<$Pr, Vec<$Pr>, Box<[$Pr]>, $P>::from_floating_point_probabilities_perfect($t)) {
+            Some(l) => {
+                if query($c, "ContiguousLookupDecoderModel::from_floating_point_probabilities_perfect", $class, &$input, $tags, || check_dec::<_, usize, $P>(&l, &$rows, &$qs)).is_some() { $c.sink.count("representation_comparisons", 1); }
+                let cc = l.into_contiguous_categorical();
+                if let Some(r) = query($c, "ContiguousLookupDecoderModel::into_contiguous_categorical", $class, &$input, "C05", || enc_rows::<_, usize, $P>(&cc, &(0..$rows.len()).collect::<Vec<usize>>())) {
+                    same($c, "lookup decoder into_contiguous_categorical vs perfect contiguous model", &$input, &$rows, &r);
+                }
+            }
+            None => $c.out.push(Finding { props: "C05", identity: "perfect constructors (contiguous vs lookup) | one accepts what the other rejects".into(), detail: format!("{:?}", $input) }),
+        }
+        match construct($c, "NonContiguousLookupDecoderModel::from_symbols_and_floating_point_probabilities_perfect", &$input,
+            || NonContiguousLookupDecoderModel::<u32, $Pr, _, _, $P>::from_symbols_and_floating_point_probabilities_perfect($plabels.iter().copied(), $t)) {
+            Some(l) => {
+                if query($c, "NonContiguousLookupDecoderModel::from_symbols_and_floating_point_probabilities_perfect", $class, &$input, $tags, || check_dec::<_, u32, $P>(&l, &$relabeled, &$qs)).is_some() { $c.sink.count("representation_comparisons", 1); }
+                { let v = l.as_non_contiguous_categorical();
+                  if query($c, "NonContiguousLookupDecoderModel::as_non_contiguous_categorical", $class, &$input, "C05", || check_dec::<_, u32, $P>(&v, &$relabeled, &$qs)).is_some() { $c.sink.count("representation_comparisons", 1); } }
+                let o = l.into_non_contiguous_categorical();
+                if query($c, "NonContiguousLookupDecoderModel::into_non_contiguous_categorical", $class, &$input, "C05", || check_dec::<_, u32, $P>(&o, &$relabeled, &$qs)).is_some() { $c.sink.count("representation_comparisons", 1); }
+            }
+            None => $c.out.push(Finding { props: "C05", identity: "perfect constructors (contiguous vs non-contiguous lookup) | one accepts what the other rejects".into(), detail: format!("{:?}", $input) }),
+        }
+    };
+    (@perfectlookup false, $c:ident, $rows:ident, $relabeled:ident, $qs:ident, $plabels:ident, $input:ident, $class:ident, $tags:ident, $Pr:ty, $P:literal, $t:ident) => { let _ = (&$relabeled, &$qs); };
     (@nclookup true, $c:ident, $labs:ident, $inp:ident, $cls:ident, $Pr:ty, $P:literal, $t:ident, $norm_val:ident) => {
         let site = "NonContiguousLookupDecoderModel::from_symbols_and_floating_point_probabilities_fast";
         if let Some(l) = construct($c, site, &$inp, || NonContiguousLookupDecoderModel::<u32, $Pr, _, _, $P>::from_symbols_and_floating_point_probabilities_fast($labs.iter().copied(), $t, $norm_val)) {
